@@ -28,6 +28,26 @@ func init() {
 // recs are rows in the same normal form as the table. Returns obligations via r.
 func compareLayout(r *Report, rule, kind, pos string, table *Layout, recs [][5]string, side string) {
 	table = renamePrivateFields(theWorld, kind, table, recs)
+	// per-element rows: "the list is not empty" in the presence guard says nothing (both sides)
+	{
+		normRow := func(row [5]string) [5]string {
+			if i := strings.Index(row[2], "[*]"); i > 0 && strings.HasPrefix(row[2], "enc(") && row[4] != "" {
+				row[4] = dropEmptinessGuards(row[4], row[2][len("enc("):i])
+			}
+			return row
+		}
+		nt := *table
+		nt.Fields = nil
+		for _, row := range table.Fields {
+			nt.Fields = append(nt.Fields, normRow(row))
+		}
+		table = &nt
+		nrecs := make([][5]string, len(recs))
+		for i, rc := range recs {
+			nrecs[i] = normRow(rc)
+		}
+		recs = nrecs
+	}
 	have := map[string][5]string{}
 	bySrc := map[string][][5]string{}
 	for _, rc := range recs {
